@@ -108,7 +108,7 @@ def on_add(db, shadow, ev):
                      f"{rule.strategy!r} does not apply to {rule.comb_class!r} but a rule was recorded", wit)
     if again != kids:
         cx.violation("C04:rule-not-genuine", f"{rule.strategy!r} on {rule.comb_class!r} gives {again}, recorded {kids}", wit)
-    if not m_spec._allowed_strategy(rule.strategy, rule.comb_class):
+    if not m_spec._allowed_strategy(rule.strategy, rule.comb_class, tuple(rule.children)):
         cx.violation("C04:strategy-not-in-pack", f"{rule.strategy!r} is not in (or produced by) the pack", wit)
     cx.see("faithful.strategy", type(rule.strategy).__name__)
     st = _state(db)
